@@ -261,7 +261,7 @@ func init() {
 		f.raw("-- common/types/address.go\n")
 		f.nat("UserAddrByte", uint64(types.UserAddrByte))
 		f.nat("AddressCoreSize", uint64(types.AddressCoreSize))
-		f.nat("AddressSize", uint64(types.AddressSize))
+		f.nat("WlAddressSize", uint64(types.AddressSize))
 		return f, nil
 	})
 }
